@@ -1830,7 +1830,7 @@ func RulePA1(c *Ctx) {
 		if bad == "" {
 			sc.Holds(key, c.P.Pos(cs.Call.Pos()), "guarded only by nil tests, type assertions and the notation test")
 		} else {
-			sc.Violation(key, c.P.Pos(cs.Call.Pos()), "the expansion of this kind of declared schema is conditional on its content ("+bad+"): a declaration that the filter skips is expanded only when another declaration inherits from it, so adding or deleting that other declaration changes this one's entry")
+			sc.Violation(key, c.P.Pos(cs.Call.Pos()), "the expansion of this kind of declared schema is conditional on its content or on another declaration ("+bad+"): a declaration that the filter skips is expanded only when another declaration inherits from it, so adding or deleting that other declaration changes this one's entry")
 		}
 		// a wrapper: the schema argument is rooted at a parameter of the enclosing function
 		root := cfgx.RootObj(info, cf.Resolve(arg))
@@ -2037,6 +2037,20 @@ func refsFuncs(info *types.Info, body *ast.BlockStmt) []*types.Func {
 // path of the expander's own argument (q, q.Schema for q.Schema.ContentJSight), not at
 // other fields of the declaration.
 func pa1NilOnPrefix(info *types.Info, cf *cfgx.Func, fa cfgx.Fact, arg ast.Expr) bool {
+	// a condition that is known only as a whole (a conjunction that is false, a disjunction
+	// that is true): every nil test in it still has to be about the declaration itself -
+	// "this one is expanded when that other one is absent" makes the expansion of one
+	// declaration depend on another
+	switch x := ast.Unparen(fa.Expr).(type) {
+	case *ast.UnaryExpr:
+		if x.Op == token.NOT {
+			return pa1NilOnPrefix(info, cf, cfgx.Fact{Expr: x.X, Truth: !fa.Truth}, arg)
+		}
+	case *ast.BinaryExpr:
+		if x.Op == token.LAND || x.Op == token.LOR {
+			return pa1NilOnPrefix(info, cf, cfgx.Fact{Expr: x.X, Truth: fa.Truth}, arg) && pa1NilOnPrefix(info, cf, cfgx.Fact{Expr: x.Y, Truth: fa.Truth}, arg)
+		}
+	}
 	be, ok := ast.Unparen(fa.Expr).(*ast.BinaryExpr)
 	if !ok || (be.Op != token.EQL && be.Op != token.NEQ) {
 		return true
